@@ -1,6 +1,7 @@
 package main
 
 import (
+	"bytes"
 	"context"
 	"fmt"
 	"strings"
@@ -830,6 +831,108 @@ func c15PooledReuse(r *Run, idx int) {
 	r.Distinct("pooled-reuse/" + kind)
 }
 
+// c15RestoredCleanMark: entries that were promoted from the saving cache's secondary store (and therefore carry the
+// mark "the secondary store holds this value") are saved and loaded into another hybrid cache, whose own secondary
+// store has never seen them. When that cache evicts them they must reach ITS secondary store: the mark describes
+// the saving cache's store, not the receiving one's. Sequential; barrier = hooks H4.
+func c15RestoredCleanMark(r *Run, idx int) {
+	kind := []string{"hybrid", "hybrid-loading"}[idx%2]
+	withTTL := idx%4 >= 2
+	bar := &secBarrier{}
+	internal.VerifSetHook(bar.hook)
+	defer internal.VerifSetHook(nil)
+	defer r.Eval(1)
+	var loads atomic.Int64
+	mk := func() (*anyCache, error) {
+		return newAnyCache(kind, anyOpts{MaxSize: 200, KeepLog: true, Workers: 1, Prob: 1, ProbSet: true,
+			Loader: func(ctx context.Context, k int) (theine.Loaded[int64], error) {
+				return theine.Loaded[int64]{Value: 7_700_000 + loads.Add(1), Cost: 1}, nil
+			}})
+	}
+	a, err := mk()
+	if err != nil {
+		r.Broken("build: %v", err)
+		return
+	}
+	const n = 30
+	val := func(k int) int64 { return int64(k)<<8 | 5 }
+	var ttl time.Duration
+	if withTTL {
+		ttl = time.Hour
+	}
+	for k := 0; k < n; k++ {
+		a.set(k, val(k), 1, ttl)
+	}
+	a.wait()
+	for k := 0; k < n; k += 2 { // every other key: demoted, then promoted again by a Get (marked clean)
+		if !bar.demote(a, k) {
+			r.Inconclusive(1)
+			a.store().Close()
+			return
+		}
+	}
+	promoted := 0
+	for k := 0; k < n; k += 2 {
+		if v, ok, gerr := a.get(context.Background(), k); gerr == nil && ok && v == val(k) {
+			promoted++
+		}
+	}
+	a.wait()
+	var buf bytes.Buffer
+	if err := a.save(1, &buf); err != nil {
+		r.Broken("save: %v", err)
+		a.store().Close()
+		return
+	}
+	a.closeAPI()
+	a.store().Close()
+	b, err := mk()
+	if err != nil {
+		r.Broken("build: %v", err)
+		return
+	}
+	defer b.store().Close()
+	if err := b.load(1, &buf); err != nil {
+		r.Broken("load: %v", err)
+		return
+	}
+	restored := 0
+	for k := 0; k < n; k++ {
+		if b.store().VerifResident(k) {
+			restored++
+		}
+	}
+	lost, first := 0, ""
+	for k := 0; k < n; k++ {
+		if !b.store().VerifResident(k) {
+			continue
+		}
+		if !bar.demote(b, k) {
+			r.Inconclusive(1)
+			return
+		}
+		l0 := loads.Load()
+		got, ok, gerr := b.get(context.Background(), k)
+		if gerr != nil || !ok || loads.Load() > l0 || got != val(k) {
+			lost++
+			if first == "" {
+				first = fmt.Sprintf("key %d (value %d, promoted in the saving cache: %v): Get after its demotion from the receiving cache returned (%d,%v,err=%v), loader ran: %v, in the receiving cache's secondary store: %s", k, val(k), k%2 == 0, got, ok, gerr, loads.Load() > l0, secHas(b, k))
+			}
+		}
+	}
+	if lost > 0 {
+		r.Violate("evicted-entry-not-retrievable/restored-by-loadcache/promoted-in-the-saving-cache", fmt.Sprintf("%s cache A: %d keys stored, every other one demoted and promoted again (%d promotions); saved, loaded into a fresh %s cache B with a secondary store of its own (%d entries restored); each restored key then evicted from B with the hand-off processed: %d were in neither tier of B afterwards (first: %s)", kind, n, promoted, kind, restored, lost, first),
+			map[string]any{"cache": kind, "lost": lost, "restored": restored, "with_ttl": withTTL})
+	}
+	if promoted > 0 && restored > 0 {
+		r.Count("restored_clean_mark_rounds", 1)
+		r.Count("entries_promoted_then_saved_and_restored", int64(imin(promoted, restored)))
+		r.Distinct(fmt.Sprintf("restored-clean-mark/%s/ttl=%v", kind, withTTL))
+	} else {
+		r.Inconclusive(1)
+	}
+}
+
 // c15Unsettled is called when the hand-off barrier never settles (writes applied, yet enqueued != processed after
 // the generous bound). That alone is inconclusive - unless the goroutine dump shows why: the cache is open and fewer
 // hand-off workers exist than it was built with (workers of caches closed earlier can only add to the count, never
@@ -880,6 +983,7 @@ func runC15(r *Run) {
 			c15UpdateOvertakesPromotion(r, i)
 			c15EvictionOvertakesUpdate(r, i)
 			c15PooledReuse(r, i)
+			c15RestoredCleanMark(r, i)
 		}
 	}
 }
